@@ -49,6 +49,8 @@ def structures(ctx):
     for _ in range(40 if ctx.quick else 400):
         p = gen2d.layout(rng, rng.randint(2, 7), maxlen=rng.choice([1, 2, 4]), maxgap=rng.choice([0, 1, 3]))
         out.append(("layout", p))
+    for _ in range(2 if ctx.quick else 10):
+        out.append(("many-stems", gen2d.many_stems(rng, rng.randint(10, 12))))
     out.append(("pkfree", [8, 7, 0, 0, 0, 0, 2, 1]))
     out.append(("empty", [0, 0, 0]))
     return out
